@@ -220,6 +220,8 @@ def dec_model(j):
     (k, x), = j.items()
     if k == 'i':
         return int(x)
+    if k == 'f':
+        return values.bits2f(x)
     if k == 's':
         return ''.join(chr(c) for c in x)
     if k in ('tu', 'li', 'it'):
@@ -323,6 +325,8 @@ def dec_rt(j):
     (k, x), = j.items()
     if k == 'i':
         return int(x)
+    if k == 'f':
+        return values.bits2f(x)
     if k == 's':
         return ''.join(chr(c) for c in x)
     if k in ('tu', 'li'):
@@ -368,13 +372,19 @@ def lam_from_json(j):
         return ['pair', lam_from_json(j[1]), lam_from_json(j[2])]
     if t == 'eq':
         return ['eq', lam_from_json(j[1]), dec_rt(j[2])]
+    if t in ('len', 'single', 'sum', 'range', 'str', 'half'):
+        return [t, lam_from_json(j[1])]
+    if t in ('first', 'last'):
+        return [t, lam_from_json(j[1]), [dec_rt(v) for v in j[2]]]
+    if t in ('where', 'select'):
+        return [t, lam_from_json(j[1]), lam_from_json(j[2])]
     return [t, lam_from_json(j[1]), j[2]]
 
 
 def lam2_from_json(j):
     if j[0] == 'const':
         return ['const', dec_rt(j[1])]
-    if j[0] in ('on1', 'on2'):
+    if j[0] in ('on1', 'on2', 'plusOn'):
         return [j[0], lam_from_json(j[1])]
     return [j[0]]
 
